@@ -114,13 +114,17 @@ func (wtr *XMLWtr) container(lvl int) node.Node {
 
 		if l, listable := hnd.Val.(val.Listable); listable {
 			for i := 0; i < l.Len(); i++ {
-				wtr.writeLeafElement(ns, r.Path, l.Item(i))
+				if err = wtr.writeLeafElement(ns, r.Path, l.Item(i)); err != nil {
+					return err
+				}
 			}
 		} else {
 			if lvl == 0 && first {
 				ns = wtr.getXmlns(r.Path)
 			}
-			wtr.writeLeafElement(ns, r.Path, hnd.Val)
+			if err = wtr.writeLeafElement(ns, r.Path, hnd.Val); err != nil {
+				return err
+			}
 		}
 
 		return nil
@@ -199,13 +203,13 @@ func (wtr *XMLWtr) endContainer(ident string) (err error) {
 }
 
 func (wtr *XMLWtr) writeLeafElement(attibute string, p *node.Path, v val.Value) error {
-	var err error
 	stringValue, err := wtr.getStringValue(p, v)
+	if err != nil {
+		return err
+	}
 	ident := p.Meta.(meta.Identifiable).Ident()
 	test := xml.StartElement{Name: xml.Name{Local: ident, Space: attibute}}
-	xml.NewEncoder(wtr._out).EncodeElement(stringValue, test)
-
-	return err
+	return xml.NewEncoder(wtr._out).EncodeElement(stringValue, test)
 }
 
 func (wtr *XMLWtr) getStringValue(p *node.Path, v val.Value) (string, error) {
@@ -218,7 +222,7 @@ func (wtr *XMLWtr) getStringValue(p *node.Path, v val.Value) (string, error) {
 		bases := p.Meta.(meta.HasType).Type().Base()
 		idty := meta.FindIdentity(bases, stringValue)
 		if idty == nil {
-			err = fmt.Errorf("could not find ident '%s'", stringValue)
+			return "", fmt.Errorf("could not find ident '%s'", stringValue)
 		}
 		idtyMod := meta.RootModule(idty)
 		if idtyMod != leafMod {
